@@ -13,7 +13,7 @@ pub fn prop() -> Prop {
          char boundaries; children tile their parent. Non-trivial: the input has at least one lexer or parser \
          error; distinct by (text, recursion limit).",
     )
-    .random("texts", check, |t| if t == Tier::Quick { 400_000 } else { 6_000_000 }, |t| if t == Tier::Quick { 300 } else { 700 })
+    .random("texts", check, |t| if t == Tier::Quick { 1_500_000 } else { 12_000_000 }, |t| if t == Tier::Quick { 300 } else { 700 })
     .text(check_text_default)
 }
 
